@@ -109,7 +109,7 @@ func (x *Exec) call(st *State, in ssa.Instruction, cc *ssa.CallCommon, res ssa.V
 			vc.note("contract assumed for dynamic callee: " + tgt.display)
 		}
 		if len(tgt.con.Locks) > 0 {
-			x.callerAcquire(st, tgt, recv, args)
+			x.callerAcquire(st, tgt, recv, args, site)
 		}
 		preReach, preN := st.reach, len(vc.lines)
 		results := x.applyContract(st, in, tgt, recv, args, sig, site, cc)
@@ -217,6 +217,20 @@ func (x *Exec) applyContract(st *State, in ssa.Instruction, tgt *target, recv *v
 			}
 		}
 		x.havocOwned(st, mds)
+		// the callee's own writes to the protected fields: `pre` is the state it found when it took the lock (what
+		// its old() refers to); what it leaves behind is a second unknown, constrained by the invariant it
+		// re-established at release and by its postcondition
+		for _, le := range c.Locks {
+			env := x.newEnvFor(pre, pre, tgt.pkg)
+			env.bindCallArgs(tgt, recv, args)
+			env.callee = tgt
+			o := env.eval(le)
+			if pt, ok := o.typ.Underlying().(*types.Pointer); ok {
+				if md := x.g.monitorOfType(pt.Elem()); md != nil {
+					x.havocProtectedUnlessHeld(st, md, pt.Elem(), o.t)
+				}
+			}
+		}
 	}
 	// 2b. callbacks the callee may invoke
 	for _, ic := range c.Invokes {
@@ -294,11 +308,13 @@ func (x *Exec) applyMod(st *State, env *Env, m *ModItem) {
 			st.comp[comp] = vc.fresh(strings.Trim(comp, "|")+"_h", vc.reg().sorts[comp])
 		}
 	case m.Heap != "":
-		comp := env.compByName(m.Heap)
-		if comp == "" {
+		comps := env.compsByName(m.Heap)
+		if len(comps) == 0 {
 			panic(contractErr("modifies: unknown component " + m.Heap))
 		}
-		st.comp[comp] = vc.fresh(strings.Trim(comp, "|")+"_h", vc.reg().sorts[comp])
+		for _, comp := range comps {
+			st.comp[comp] = vc.fresh(strings.Trim(comp, "|")+"_h", vc.reg().sorts[comp])
+		}
 	default:
 		for _, cr := range env.modTargets(m) {
 			cur := vc.get(st, cr.comp)
@@ -381,6 +397,14 @@ func (x *Exec) havocProtected(st *State, md *MonitorDef, sty types.Type, base st
 				vc.regComp("Owned", "(Array Int Bool)")
 				vc.assert(implies(st.reach, or(eq(id, "0"), sel(vc.get(st, "Owned"), id))))
 			}
+			// references stored in a protected map designate objects that exist now (heap closure)
+			if mt, ok := s.Field(i).Type().Underlying().(*types.Map); ok {
+				switch mt.Elem().Underlying().(type) {
+				case *types.Pointer, *types.Map, *types.Chan:
+					mv := vc.get(st, vc.mapVal(mt))
+					vc.assert(implies(st.reach, fmt.Sprintf("(forall ((k %s)) (! (< (select (select %s %s) k) %s) :pattern ((select (select %s %s) k))))", vc.sortOf(mt.Key()), mv, c, vc.getNext(st), mv, c)))
+				}
+			}
 		}
 	}
 	if md.Inv != "" {
@@ -389,6 +413,21 @@ func (x *Exec) havocProtected(st *State, md *MonitorDef, sty types.Type, base st
 		t := env.evalBool(&CExpr{Op: "call", Name: md.Inv, Args: []*CExpr{{Op: "ident", Name: "$obj"}}})
 		vc.assert(implies(st.reach, t))
 	}
+}
+
+// heldTerm: Held[lock of base] for a monitor object, "" if the lock field is not found.
+func (x *Exec) heldTerm(st *State, md *MonitorDef, sty types.Type, base string) string {
+	s, ok := sty.Underlying().(*types.Struct)
+	if !ok {
+		return ""
+	}
+	for i := 0; i < s.NumFields(); i++ {
+		if s.Field(i).Name() == md.Lock {
+			x.vc.regComp("Held", "(Array Int Int)")
+			return sel(x.vc.get(st, "Held"), x.vc.subRef(sty, i, base))
+		}
+	}
+	return ""
 }
 
 func (x *Exec) havocProtectedUnlessHeld(st *State, md *MonitorDef, sty types.Type, base string) {
@@ -417,6 +456,16 @@ func (x *Exec) havocProtectedUnlessHeld(st *State, md *MonitorDef, sty types.Typ
 			h := vc.fieldHeap(sty, i)
 			vc.set(st, h, ite(held, vc.get(before, h), vc.get(st, h)))
 		}
+	}
+	// The invariant holds for the state the callee leaves behind in either case. If this thread held the lock, the
+	// callee can only have returned when both hold it in read mode (sync locks are not reentrant: every other
+	// combination never returns - partial correctness); then nobody wrote the protected fields since this thread's own
+	// acquisition, when the invariant held.
+	if md.Inv != "" {
+		env := x.newEnvFor(st, st, x.g.pkgByPath(md.Pkg))
+		env.names["$obj"] = val{base, types.NewPointer(sty), sInt}
+		t := env.evalBool(&CExpr{Op: "call", Name: md.Inv, Args: []*CExpr{{Op: "ident", Name: "$obj"}}})
+		vc.assert(implies(st.reach, t))
 	}
 }
 
@@ -498,6 +547,7 @@ func (x *Exec) havocOwned(st *State, mds []*MonitorDef) {
 	owned := vc.get(st, "Owned")
 	// only the kinds of objects these monitors can own: the maps / backing arrays their protected fields hold
 	nameSet := map[string]bool{}
+	refVals := map[string]string{} // map-value heaps holding references -> key sort
 	for _, md := range mds {
 		p := x.g.pkgByPath(md.Pkg)
 		if p == nil {
@@ -520,6 +570,10 @@ func (x *Exec) havocOwned(st *State, mds []*MonitorDef) {
 				case *types.Map:
 					nameSet[vc.mapDom(u)] = true
 					nameSet[vc.mapVal(u)] = true
+					switch u.Elem().Underlying().(type) {
+					case *types.Pointer, *types.Map, *types.Chan:
+						refVals[vc.mapVal(u)] = vc.sortOf(u.Key())
+					}
 				case *types.Slice:
 					nameSet[vc.arrHeap(u.Elem())] = true
 				}
@@ -535,10 +589,14 @@ func (x *Exec) havocOwned(st *State, mds []*MonitorDef) {
 		old := vc.get(st, k)
 		c := vc.fresh(strings.Trim(k, "|")+"_own", vc.reg().sorts[k])
 		vc.assert(fmt.Sprintf("(forall ((r Int)) (! (=> (not (select %s r)) (= (select %s r) (select %s r))) :pattern ((select %s r))))", owned, c, old, c))
+		if ks, ok := refVals[k]; ok {
+			// references found in a monitor-owned map designate objects that exist now (heap closure)
+			vc.assert(fmt.Sprintf("(forall ((r Int) (k %s)) (! (< (select (select %s r) k) %s) :pattern ((select (select %s r) k))))", ks, c, vc.getNext(st), c))
+		}
 		st.comp[k] = c
 	}
 	no := vc.fresh("Owned", "(Array Int Bool)")
-	vc.assert(fmt.Sprintf("(forall ((r Int)) (! (=> (select %s r) (select %s r)) :pattern ((select %s r))))", owned, no, owned))
+	vc.assert(fmt.Sprintf("(forall ((r Int)) (! (=> (select %s r) (select %s r)) :pattern ((select %s r)) :pattern ((select %s r))))", owned, no, owned, no))
 	// newly owned objects are ones the caller has never seen
 	vc.assert(fmt.Sprintf("(forall ((r Int)) (! (=> (and (select %s r) (not (select %s r))) (>= r %s)) :pattern ((select %s r))))", no, owned, vc.getNext(st), no))
 	st.comp["Owned"] = no
@@ -546,7 +604,7 @@ func (x *Exec) havocOwned(st *State, mds []*MonitorDef) {
 
 // callerAcquire: the callee acquires the monitor of these objects; from the caller's point of view the
 // protected state is whatever other threads left there (invariant holds) before the callee's body runs.
-func (x *Exec) callerAcquire(st *State, tgt *target, recv *val, args []val) {
+func (x *Exec) callerAcquire(st *State, tgt *target, recv *val, args []val, site string) {
 	for _, le := range tgt.con.Locks {
 		env := x.newEnvFor(st, st, tgt.pkg)
 		env.bindCallArgs(tgt, recv, args)
@@ -706,6 +764,39 @@ func (x *Exec) applyInvoke(st, pre *State, in ssa.Instruction, tgt *target, ic *
 	if fn != nil && fn.Pkg != nil {
 		ccon = x.g.cs.Funcs[fn.Pkg.Pkg.Path()+"|"+relName(fn)]
 	}
+	// callback description (a function/closure with a contract, or a function-valued parameter handed on,
+	// described by a `param f in <fn>` contract)
+	type cbParam struct {
+		name string
+		typ  types.Type
+	}
+	var cbParams []cbParam
+	var cbPkg *types.Package
+	var cbSig *types.Signature
+	cbName := ""
+	if ccon != nil {
+		cbPkg, cbSig, cbName = fn.Pkg.Pkg, fn.Signature, relName(fn)
+		for _, p := range fn.Params {
+			cbParams = append(cbParams, cbParam{p.Name(), p.Type()})
+		}
+	} else if pa, ok := argv.(*ssa.Parameter); ok && x.fn.Pkg != nil {
+		if sig, ok := pa.Type().Underlying().(*types.Signature); ok {
+			if pc := x.g.cs.Funcs[x.fn.Pkg.Pkg.Path()+"|param "+pa.Name()+" in "+relName(x.fn)]; pc != nil {
+				ccon, cbPkg, cbSig, cbName = pc, x.fn.Pkg.Pkg, sig, "param "+pa.Name()
+				for i := 0; i < sig.Params().Len(); i++ {
+					nm := sig.Params().At(i).Name()
+					if i < len(pc.Params) {
+						nm = pc.Params[i]
+					}
+					if nm == "" || nm == "_" {
+						nm = fmt.Sprintf("p%d", i)
+					}
+					cbParams = append(cbParams, cbParam{nm, sig.Params().At(i).Type()})
+				}
+				vc.note("contract assumed for the callback parameter handed on: param " + pa.Name() + " in " + relName(x.fn))
+			}
+		}
+	}
 	if ccon == nil {
 		vc.note("callback without contract passed to " + tgt.display + " in " + x.fn.String() + ": all modelled state havocked")
 		vc.havocAll(st)
@@ -713,10 +804,10 @@ func (x *Exec) applyInvoke(st, pre *State, in ssa.Instruction, tgt *target, ic *
 	}
 	fref := args[idx].t
 	mkEnv := func(cur, old *State) *Env {
-		env := x.newEnvFor(cur, old, fn.Pkg.Pkg)
+		env := x.newEnvFor(cur, old, cbPkg)
 		env.lazy = map[string]func(*Env) val{}
 		env.capturedCell = map[string]func() (string, string){}
-		if mc != nil {
+		if mc != nil && fn != nil {
 			for i, fv := range fn.FreeVars {
 				b := mc.Bindings[i]
 				lv := x.lvalueForRead(b)
@@ -731,18 +822,18 @@ func (x *Exec) applyInvoke(st, pre *State, in ssa.Instruction, tgt *target, ic *
 				}
 			}
 		}
-		env.names["self"] = val{fref, fn.Signature, sInt}
+		env.names["self"] = val{fref, cbSig, sInt}
 		return env
 	}
 	// bound variables standing for the arguments of one invocation
 	var decls []string
 	bound := map[string]val{}
-	for i, p := range fn.Params {
+	for i, p := range cbParams {
 		name := quote(fmt.Sprintf("q$cb%d", i))
-		srt := vc.sortOf(p.Type())
+		srt := vc.sortOf(p.typ)
 		decls = append(decls, "("+name+" "+srt+")")
-		v := val{name, p.Type(), srt}
-		bound[p.Name()] = v
+		v := val{name, p.typ, srt}
+		bound[p.name] = v
 		if i < len(ic.Vars) {
 			bound[ic.Vars[i]] = v
 		}
@@ -776,7 +867,7 @@ func (x *Exec) applyInvoke(st, pre *State, in ssa.Instruction, tgt *target, ic *
 			env.names[k] = v
 		}
 		t := env.evalBool(cl.Expr)
-		o := &Obl{Name: x.prefix + "/pre/" + site + "/callback " + ic.Param + "/" + clauseLabel(cl), Kind: "pre", Props: x.props, Reach: st.reach, Goal: quant(implies(where, t)), Src: "callback " + relName(fn) + " requires " + cl.Text + " whenever " + tgt.display + " invokes it"}
+		o := &Obl{Name: x.prefix + "/pre/" + site + "/callback " + ic.Param + "/" + clauseLabel(cl), Kind: "pre", Props: x.props, Reach: st.reach, Goal: quant(implies(where, t)), Src: "callback " + cbName + " requires " + cl.Text + " whenever " + tgt.display + " invokes it"}
 		if in != nil && in.Pos().IsValid() {
 			o.Pos = x.g.fset.Position(in.Pos())
 		}
@@ -785,7 +876,7 @@ func (x *Exec) applyInvoke(st, pre *State, in ssa.Instruction, tgt *target, ic *
 	// 1b. what it maintains must hold before the first invocation
 	for _, cl := range ccon.Maintains {
 		t := mkEnv(pre, pre).evalBool(cl.Expr)
-		o := &Obl{Name: x.prefix + "/pre/" + site + "/callback " + ic.Param + "/maintains/" + clauseLabel(cl), Kind: "pre", Props: x.props, Reach: st.reach, Goal: t, Src: "callback " + relName(fn) + " maintains " + cl.Text + " (must hold initially)"}
+		o := &Obl{Name: x.prefix + "/pre/" + site + "/callback " + ic.Param + "/maintains/" + clauseLabel(cl), Kind: "pre", Props: x.props, Reach: st.reach, Goal: t, Src: "callback " + cbName + " maintains " + cl.Text + " (must hold initially)"}
 		vc.oblige(o)
 	}
 	// 2. its effects, any number of times: havoc its frame, keep what it preserves
@@ -806,7 +897,7 @@ func (x *Exec) applyInvoke(st, pre *State, in ssa.Instruction, tgt *target, ic *
 	nn := vc.fresh("next", sInt)
 	vc.assert(app(">=", nn, oldNext))
 	st.comp["next"] = nn
-	x.rtypeAfterCall(st, ccon, &target{pkg: fn.Pkg.Pkg}, oldNext, nn)
+	x.rtypeAfterCall(st, ccon, &target{pkg: cbPkg}, oldNext, nn)
 	for i, cl := range ccon.Preserves {
 		after := mkEnv(st, pre).eval(cl.Expr)
 		vc.assert(implies(st.reach, eq(after.t, before[i].t)))
@@ -815,7 +906,7 @@ func (x *Exec) applyInvoke(st, pre *State, in ssa.Instruction, tgt *target, ic *
 		vc.assert(implies(st.reach, mkEnv(st, pre).evalBool(cl.Expr)))
 	}
 	// 3. a pure callback is a function of its arguments: its postcondition characterises capply
-	if ccon.Pure && fn.Signature.Results().Len() == 1 {
+	if ccon.Pure && fn != nil && fn.Signature.Results().Len() == 1 {
 		sorts := []string{sInt}
 		as := []string{fref}
 		for _, p := range fn.Params {
